@@ -274,9 +274,7 @@ def walk(root, max_nodes=300000):
     return w
 
 
-def scan_graph(taint, root):
-    """-> (hits, walk).  hit = {'path','enc','label'}"""
-    w = walk(root)
+def hits_from_walk(taint, w):
     hits = []
     for path, n in w.ints:
         for enc, lab in taint.scan_int(n):
@@ -291,7 +289,37 @@ def scan_graph(taint, root):
             for path, b in w.blobs:
                 for enc, lab in taint.scan_bytes(b):
                     hits.append({'path': path, 'enc': enc, 'label': lab})
-    return hits, w
+    return hits
+
+
+def scan_graph(taint, root):
+    """-> (hits, walk).  hit = {'path','enc','label'}"""
+    w = walk(root)
+    return hits_from_walk(taint, w), w
+
+
+def scan_parts(taint, parts):
+    """parts = [(where, root)] -> {where: hits}.  All leaves of all parts go through ONE combined pre-check (the same
+    substring / equality tests on the de-duplicated leaves); the per-part scans run only when it fires."""
+    walks = [(where, walk(root)) for where, root in parts]
+    texts, blobs = set(), set()
+    dirty = False
+    for where, w in walks:
+        for _, n in w.ints:
+            if n in taint.labels:
+                dirty = True
+        texts.update(t for _, t in w.texts if len(t) >= 20)
+        blobs.update(b for _, b in w.blobs if len(b) >= 20)
+    if not dirty and texts and taint.scan_text('\n'.join(sorted(texts))):
+        dirty = True
+    if not dirty and blobs and taint.scan_bytes(b'\n\xff\n'.join(sorted(blobs))):
+        dirty = True
+    out = {}
+    for where, w in walks:
+        out.setdefault(where, [])
+        if dirty:
+            out[where] += _tag(hits_from_walk(taint, w), where)
+    return out, walks
 
 
 def _tag(hits, where):
@@ -300,10 +328,25 @@ def _tag(hits, where):
     return hits
 
 
+def refused(col, probe, where, exc):
+    """A raised exception shows nothing: counted, with a few distinct reasons kept for the evidence."""
+    col.probe(probe)
+    d = col.extra.setdefault('refusal_reasons', {})
+    k = '%s: %s' % (where, type(exc).__name__)
+    if k in d or len(d) < 40:
+        d[k] = (repr(exc)[:160])
+
+
 def capture(fn, *a, **kw):
+    """Captured stdout of a printing method.  What was printed before an exception has been shown all the same, so it
+    is returned (an exception with no output at all is re-raised = refusal)."""
     buf = io.StringIO()
-    with contextlib.redirect_stdout(buf):
-        fn(*a, **kw)
+    try:
+        with contextlib.redirect_stdout(buf):
+            fn(*a, **kw)
+    except Exception:
+        if not buf.getvalue():
+            raise
     return buf.getvalue()
 
 
@@ -311,14 +354,24 @@ def capture(fn, *a, **kw):
 OBJECT_FORMS = ('graph', 'pickle', 'unpickled', 'deepcopy', 'copy', 'graph-after-calls')
 
 
-def object_hits(col, taint, view):
-    """Graph, pickle bytes, unpickled graph, deepcopy / copy graph of a public view."""
-    hits = []
+def _is_sa(v):
+    return hasattr(v, '_sa_instance_state') or (type(v).__module__ or '').split('.')[0] == 'sqlalchemy'
+
+
+def _db_bound(view):
+    d = getattr(view, '__dict__', None)
+    return _is_sa(view) or (isinstance(d, dict) and any(_is_sa(v) for v in d.values()))
+
+
+def object_parts(col, view):
+    """Graph, pickle bytes, unpickled graph, deepcopy / copy graph of a public view -> [(where, root)]."""
+    parts = [('graph', view)]
     col.probe('graph_scan')
-    h, w = scan_graph(taint, view)
-    if w.truncated:
-        col.note_inconclusive('object graph walk truncated at %d nodes' % w.nodes)
-    hits += _tag(h, 'graph')
+    if _db_bound(view):
+        # WalletKey / Wallet hold a live Session: they cannot be pickled or deep-copied (the attempt raises half-way and
+        # disturbs SQLAlchemy's instrumentation); their picklable parts (HDKey objects) are scanned as views of their own
+        col.probe('db_bound_view_not_copied')
+        return parts
     try:
         blob = pickle.dumps(view)
     except Exception:
@@ -326,29 +379,25 @@ def object_hits(col, taint, view):
         blob = None
     if blob is not None:
         col.probe('pickle_scan')
-        hits += _tag([{'path': 'pickle.dumps', 'enc': e, 'label': l} for e, l in taint.scan_bytes(blob)], 'pickle')
+        parts.append(('pickle', blob))
         try:
-            back = pickle.loads(blob)
-            hits += _tag(scan_graph(taint, back)[0], 'unpickled')
+            parts.append(('unpickled', pickle.loads(blob)))
         except Exception:
             col.probe('unpickle_refused')
     try:
-        dc = copy.deepcopy(view)
+        parts.append(('deepcopy', copy.deepcopy(view)))
+        col.probe('deepcopy_scan')
     except Exception:
         col.probe('deepcopy_refused')
-        dc = None
-    if dc is not None:
-        col.probe('deepcopy_scan')
-        hits += _tag(scan_graph(taint, dc)[0], 'deepcopy')
     try:
-        hits += _tag(scan_graph(taint, copy.copy(view))[0], 'copy')
+        parts.append(('copy', copy.copy(view)))
     except Exception:
         pass
-    return hits
+    return parts
 
 
-def text_forms(col, taint, obj, forms=('repr', 'str', 'as_dict', 'as_json', 'info')):
-    """-> {form: (hits, rendered)} for the default rendering calls; a raising call is a refusal (nothing shown)."""
+def render_forms(col, obj, forms=('repr', 'str', 'as_dict', 'as_json', 'info')):
+    """-> {form: rendered value} of the DEFAULT rendering calls; a raising call is a refusal (nothing is shown)."""
     out = {}
     for form in forms:
         try:
@@ -368,14 +417,30 @@ def text_forms(col, taint, obj, forms=('repr', 'str', 'as_dict', 'as_json', 'inf
                 if not hasattr(obj, 'info'):
                     continue
                 val = capture(obj.info)
+            elif form == 'export':
+                if not hasattr(obj, 'export'):
+                    continue
+                val = obj.export()
             else:
                 continue
-        except Exception:
-            col.probe('%s_refused' % form)
+        except Exception as e:
+            refused(col, '%s_refused' % form, '%s.%s' % (type(obj).__name__, form), e)
             continue
+        out[form] = val
+    return out
+
+
+def scan_rendered(col, taint, rendered):
+    """-> {form: (hits, rendered)}"""
+    out = {}
+    for form, val in rendered.items():
         col.probe('%s_scan' % form)
         out[form] = (_tag(scan_graph(taint, val)[0], form), val)
     return out
+
+
+def text_forms(col, taint, obj, forms=('repr', 'str', 'as_dict', 'as_json', 'info')):
+    return scan_rendered(col, taint, render_forms(col, obj, forms))
 
 
 def _summ(hits):
@@ -394,7 +459,7 @@ def classify_keyview_object(view, hits, taint):
         return None
     if not all(h['enc'].startswith('wif-') for h in hits):
         return None
-    if not all(h['path'] in ('$._wif', 'pickle.dumps') for h in hits):
+    if not all(h['path'] == '$._wif' or (h.get('where') == 'pickle' and h['path'] == '$') for h in hits):
         return None
     try:
         c = copy.copy(view)
@@ -442,26 +507,39 @@ def report(col, key, what, case, view, form, hits, expected='no encoding of any 
 
 def check_public_view(col, taint, case, view, vname):
     """Full scan of something the library presents as public."""
-    hits = object_hits(col, taint, view)
-    forms = text_forms(col, taint, view)
+    parts = object_parts(col, view)
+    rendered = render_forms(col, view)
+    for form, val in rendered.items():
+        col.probe('%s_scan' % form)
+        parts.append((form, val))
     col.probe('graph_scan')
-    hits += _tag(scan_graph(taint, view)[0], 'graph-after-calls')
+    parts.append(('graph-after-calls', view))
+    res, walks = scan_parts(taint, parts)
+    for where, w in walks:
+        if w.truncated:
+            col.note_inconclusive('object graph walk truncated at %d nodes' % w.nodes)
+    hits = [h for where in OBJECT_FORMS for h in res.get(where, [])]
     if hits:
         report(col, classify_keyview_object(view, hits, taint), '%s object state' % vname, case, vname, 'object', hits)
-    for form, (fh, val) in forms.items():
-        if fh:
-            report(col, None, '%s.%s' % (vname, form), case, vname, form, fh)
-    return bool(hits) or any(fh for fh, _ in forms.values())
+    bad = bool(hits)
+    for form in rendered:
+        if res.get(form):
+            bad = True
+            report(col, None, '%s.%s' % (vname, form), case, vname, form, res[form])
+    return bad
 
 
 def check_default_forms(col, taint, case, obj, oname, forms=('repr', 'str', 'as_dict', 'as_json', 'info'), keyer=None):
     """Default rendering of a (possibly private) object."""
-    res = text_forms(col, taint, obj, forms)
-    for form, (fh, val) in res.items():
-        if fh:
+    rendered = render_forms(col, obj, forms)
+    for form in rendered:
+        col.probe('%s_scan' % form)
+    res, _ = scan_parts(taint, list(rendered.items()))
+    for form, val in rendered.items():
+        if res.get(form):
             key = keyer(obj, form, val, taint) if keyer else None
-            report(col, key, 'default %s of %s' % (form, oname), case, oname, form, fh)
-    return res
+            report(col, key, 'default %s of %s' % (form, oname), case, oname, form, res[form])
+    return rendered
 
 
 def key_default_keyer(obj, form, val, taint):
@@ -648,8 +726,8 @@ def run_key_case(case, col):
         try:
             ops[name](k, ctx)
             col.probe('history_op')
-        except Exception:
-            col.probe('history_op_refused')
+        except Exception as e:
+            refused(col, 'history_op_refused', '%s history %s' % (case['cls'], name), e)
     fmt = '%s/%s' % (case['cls'], case['how'])
     ident = (case['cls'], case['how'], case['network'], bool(case.get('compressed', True)), case.get('witness_type'), tuple(hist))
     views = [('public()', lambda: k.public())]
@@ -661,8 +739,8 @@ def run_key_case(case, col):
     for vname, mk in views:
         try:
             v = mk()
-        except Exception:
-            col.probe('view_refused')
+        except Exception as e:
+            refused(col, 'view_refused', '%s.%s' % (case['cls'], vname), e)
             continue
         col.case('%s/%s/hist%d' % (fmt, vname, len(hist)), nontrivial=ident + (vname,),
                  sample=dict(case, view=vname))
@@ -702,8 +780,11 @@ def gen_key_case(rnd, cls=None):
     cls = cls or rnd.choice(['Key', 'HDKey'])
     net = rnd.choice(KEY_NETWORKS)
     if cls == 'Key':
-        return {'kind': 'key', 'cls': 'Key', 'how': rnd.choice(['hex', 'int', 'bytes', 'wif']), 'network': net,
+        case = {'kind': 'key', 'cls': 'Key', 'how': rnd.choice(['hex', 'int', 'bytes', 'wif']), 'network': net,
                 'secret': '%064x' % gen_secret(rnd), 'compressed': rnd.random() < 0.7}
+        if case['how'] == 'wif' and case['secret'].endswith('01'):
+            case['compressed'] = True      # uncompressed WIF of a secret ending in 01 is mis-imported (property C12, not judged here)
+        return case
     how = rnd.choice(['seed', 'seed', 'xprv', 'from_wif', 'hexkey'])
     wts = sorted(chain.NETWORKS[net]['hd'])
     case = {'kind': 'key', 'cls': 'HDKey', 'how': how, 'network': net, 'witness_type': rnd.choice(wts), 'multisig': rnd.random() < 0.2}
@@ -848,12 +929,23 @@ def _w_send(w, ctx):
     w.utxo_add(k.address, 150000 + n, '%064x' % (0xabc0000 + n), 0)
     to = w.get_key(change=1).address
     t = w.send_to(to, 40000 + n, fee=3000, broadcast=(w.network.name == 'bitcoinlib_test'), min_confirms=0)
-    ctx.setdefault('txs', []).append(t)
     if ctx.get('store'):
         try:
             t.store()
         except Exception:
             pass
+    # The default forms are rendered now and the object is released: a live WalletTransaction keeps ORM rows alive whose
+    # instance state Wallet.utxos()/transactions(as_dict=True)/info() strip, which breaks later queries of that session
+    # (a robustness problem of the library outside this property).
+    col = ctx['col']
+    forms = [('WalletTransaction', render_forms(col, t, ('repr', 'str', 'as_dict', 'as_json', 'info', 'export')))]
+    for i in t.inputs[:2]:
+        forms.append(('WalletTransaction.Input', render_forms(col, i, ('repr', 'str', 'as_dict'))))
+    for o in t.outputs[:2]:
+        forms.append(('WalletTransaction.Output', render_forms(col, o, ('repr', 'str', 'as_dict'))))
+    ctx.setdefault('tx_forms', []).append(forms)
+    del t
+    gc.collect()
 
 
 def _w_import(w, ctx):
@@ -878,10 +970,11 @@ W_OPS = {
     'keys_private': lambda w, c: w.keys(include_private=True, as_dict=True),
     'info': lambda w, c: capture(w.info),
     'send': _w_send,
-    'main_key_private_calls': lambda w, c: (w.main_key.key().wif_key(), w.main_key.key().wif_private(), w.main_key.as_dict(include_private=True)),
+    'main_key_private_calls': lambda w, c: [(x.main_key.key().wif_key(), x.main_key.key().wif_private(), x.main_key.as_dict(include_private=True))
+                                             for x in [w] + list(w.cosigner or []) if x.main_key and x.main_key.is_private],
     'key_objects': lambda w, c: [w.key(r.id).key() for r in w.keys()[:4]],
     'import_key': _w_import,
-    'balance': lambda w, c: (w.balance(), w.utxos()),
+    'balance': lambda w, c: w.balance(),
     'reopen': _w_reopen,
 }
 W_OP_NAMES = sorted(W_OPS)
@@ -892,21 +985,26 @@ def run_wallet_history(w, case, ctx, col):
         try:
             W_OPS[name](w, ctx)
             col.probe('wallet_history_op')
-        except Exception:
-            col.probe('wallet_history_op_refused')
+        except Exception as e:
+            refused(col, 'wallet_history_op_refused', '%s wallet history %s' % (case['wtype'], name), e)
         if ctx.get('reopened') is not None:
             w = ctx.pop('reopened')
     return w
 
 
+def _is_repr_form(obj, form):
+    # str() of a class without __str__ is its __repr__: same mechanism, same text
+    return form == 'repr' or (form == 'str' and type(obj).__str__ is object.__str__)
+
+
 def walletkey_keyer(obj, form, val, taint):
-    if form == 'repr' and isinstance(val, str) and getattr(obj, 'is_private', False):
+    if _is_repr_form(obj, form) and isinstance(val, str) and getattr(obj, 'is_private', False):
         return classify_repr_wif_field(val, taint, _WK_REPR, K_WK_REPR)
     return None
 
 
 def dbkey_keyer(obj, form, val, taint):
-    if form == 'repr' and isinstance(val, str) and getattr(obj, 'is_private', False):
+    if _is_repr_form(obj, form) and isinstance(val, str) and getattr(obj, 'is_private', False):
         return classify_repr_wif_field(val, taint, _DBKEY_REPR, K_DBKEY_REPR)
     return None
 
@@ -921,6 +1019,15 @@ def _wallet_secrets(case):
     return seeds, singles
 
 
+def scan_tx_forms(col, taint, case, ctx):
+    for forms in ctx.get('tx_forms', [])[:4]:
+        col.probe('tx_default_forms')
+        for oname, rendered in forms:
+            for form, (fh, val) in scan_rendered(col, taint, rendered).items():
+                if fh:
+                    report(col, None, 'default %s of %s' % (form, oname), case, oname, form, fh)
+
+
 def run_wallet_case(case, col):
     from bitcoinlib.wallets import Wallet, WalletKey
     ddir = os.environ.get('BCL_DATA_DIR') or '.'
@@ -928,7 +1035,7 @@ def run_wallet_case(case, col):
     db_path = os.path.join(ddir, 'c16-wallet-%d-%d.sqlite' % (os.getpid(), n))
     name = 'c16w%d' % n
     seeds, singles = _wallet_secrets(case)
-    ctx = {'import_secret': singles[-1] if case.get('import_secret') else None}
+    ctx = {'import_secret': singles[-1] if case.get('import_secret') else None, 'col': col}
     ident = (case['wtype'], case['network'], case['witness_type'], tuple(case['history']))
     try:
         w = make_wallet(case, db_path, name)
@@ -941,107 +1048,103 @@ def run_wallet_case(case, col):
         taint, n_priv = wallet_taint(col, db_path, seeds, singles)
         col.probe('wallet_taint_secrets', len(taint.labels))
         cls = 'wallet/%s/%s/hist%d' % (case['wtype'], case['network'], len(case['history']))
-        # ---- default forms of the private wallet and of what it hands out
+        # ---- 1. default forms of the private wallet and of the objects it hands out
         col.case(cls + '/default-forms', nontrivial=ident + ('defaults',), sample=dict(case, view='defaults'))
+        scan_tx_forms(col, taint, case, ctx)
         check_default_forms(col, taint, case, w, 'private Wallet')
-        try:
-            v = capture(w.info, 5)
-            col.probe('info_scan')
-            h = _tag(scan_graph(taint, v)[0], 'info')
-            if h:
-                report(col, None, 'Wallet.info(detail=5)', case, 'private Wallet', 'info5', h)
-        except Exception:
-            col.probe('info_refused')
         for label, fn in (('keys(as_dict=True)', lambda: w.keys(as_dict=True)),
                           ('keys_addresses(as_dict)', lambda: w.keys_addresses(as_dict=True)),
                           ('keys_accounts(as_dict)', lambda: w.keys_accounts(as_dict=True)),
                           ('keys_networks(as_dict)', lambda: w.keys_networks(as_dict=True)),
                           ('addresslist()', lambda: w.addresslist()),
                           ('accounts()', lambda: w.accounts()),
-                          ('networks(as_dict)', lambda: w.networks(as_dict=True)),
-                          ('utxos()', lambda: w.utxos()),
-                          ('transactions(as_dict)', lambda: w.transactions(as_dict=True)),
-                          ('transactions_export()', lambda: w.transactions_export()),
+                          ('info(detail=5)', lambda: capture(w.info, 5)),
                           ('wif(is_private=False)', lambda: w.wif(is_private=False))):
             try:
                 val = fn()
-            except Exception:
-                col.probe('wallet_export_refused')
+            except Exception as e:
+                refused(col, 'wallet_export_refused', '%s Wallet.%s' % (case['wtype'], label), e)
                 continue
             col.probe('wallet_export_scan')
             h = _tag(scan_graph(taint, val)[0], label)
             if h:
                 report(col, None, 'Wallet.%s' % label, case, 'private Wallet', label, h)
-        rows = w.keys()
-        for r in rows[:12]:
-            col.probe('dbkey_repr_scan')
-            check_default_forms(col, taint, case, r, 'DbKey row', forms=('repr', 'str'), keyer=dbkey_keyer)
-        wks = []
-        if w.main_key:
-            wks.append(w.main_key)
-        for r in rows[-3:]:
-            try:
-                wks.append(w.key(r.id))
-            except Exception:
-                pass
-        for wk in wks:
-            col.probe('walletkey_default_scan')
-            check_default_forms(col, taint, case, wk, 'WalletKey', forms=('repr', 'str', 'as_dict'), keyer=walletkey_keyer)
-        if w.main_key and w.main_key.key_type != 'multisig':
-            try:
-                hk = w.main_key.key()
-                check_default_forms(col, taint, case, hk, 'private HDKey', keyer=key_default_keyer)
-            except Exception:
-                pass
-        txs = list(ctx.get('txs', []))
-        try:
-            txs += list(w.transactions())[:2]
-        except Exception:
-            pass
-        for t in txs[:3]:
-            col.probe('tx_default_forms')
-            check_default_forms(col, taint, case, t, 'WalletTransaction')
-            for i in t.inputs[:2]:
-                check_default_forms(col, taint, case, i, 'Input', forms=('repr', 'str', 'as_dict'))
-            for o in t.outputs[:2]:
-                check_default_forms(col, taint, case, o, 'Output', forms=('repr', 'str', 'as_dict'))
-            try:
-                ex = t.export()
-                h = _tag(scan_graph(taint, ex)[0], 'export')
-                if h:
-                    report(col, None, 'WalletTransaction.export()', case, 'WalletTransaction', 'export', h)
-            except Exception:
-                pass
-        # ---- public views (taken last: WalletKey.public() rewrites the wallet's own key object)
+        row_ids = []
+        for ww, wl in [(w, '')] + [(cw, 'cosigner ') for cw in (w.cosigner or [])]:
+            if wl:
+                check_default_forms(col, taint, case, ww, 'cosigner Wallet')
+            rows = ww.keys()
+            ids = [r.id for r in rows]
+            if not wl:
+                row_ids = ids
+            for r in rows[:12]:
+                col.probe('dbkey_repr_scan')
+                check_default_forms(col, taint, case, r, wl + 'DbKey row', forms=('repr', 'str'), keyer=dbkey_keyer)
+            del rows
+            wks = []
+            if ww.main_key:
+                wks.append(ww.main_key)
+            for rid in ids[-3:]:
+                try:
+                    wks.append(ww.key(rid))
+                except Exception as e:
+                    refused(col, 'view_refused', '%s Wallet.key(id)' % case['wtype'], e)
+            for wk in wks:
+                col.probe('walletkey_default_scan')
+                check_default_forms(col, taint, case, wk, wl + 'WalletKey', forms=('repr', 'str', 'as_dict'), keyer=walletkey_keyer)
+            del wks
+            if ww.main_key and ww.main_key.key_type != 'multisig' and ww.main_key.is_private:
+                try:
+                    check_default_forms(col, taint, case, ww.main_key.key(), 'private HDKey', keyer=key_default_keyer)
+                except Exception as e:
+                    refused(col, 'view_refused', 'main_key.key()', e)
+        # ---- 2. public views (WalletKey.public() rewrites the wallet's own key object, so they come after the defaults)
         watch_keys = None
         try:
             watch_keys = w.wif(is_private=False)
-        except Exception:
-            col.probe('view_refused')
+        except Exception as e:
+            refused(col, 'view_refused', '%s Wallet.wif(is_private=False)' % case['wtype'], e)
         try:
             pm = w.public_master()
-        except Exception:
-            col.probe('view_refused')
+        except Exception as e:
+            refused(col, 'view_refused', '%s Wallet.public_master()' % case['wtype'], e)
             pm = None
-        for i, v in enumerate(pm if isinstance(pm, list) else ([pm] if pm is not None else [])):
+        for v in (pm if isinstance(pm, list) else ([pm] if pm is not None else [])):
             col.case(cls + '/public_master()', nontrivial=ident + ('public_master',), sample=dict(case, view='Wallet.public_master()'))
             check_public_view(col, taint, case, v, 'Wallet.public_master()')
+            for sub, get in (('._hdkey_object', lambda: v._hdkey_object), ('.key()', lambda: v.key())):
+                try:
+                    hk = get()
+                    if hk is not None and not isinstance(hk, list):
+                        check_public_view(col, taint, case, hk, 'Wallet.public_master()' + sub)
+                except Exception as e:
+                    refused(col, 'view_refused', '%s Wallet.public_master()%s' % (case['wtype'], sub), e)
+        for rid in row_ids[-2:]:
             try:
-                hk = v.key()
-                if hk is not None and not isinstance(hk, list):
-                    check_public_view(col, taint, case, hk, 'Wallet.public_master().key()')
-            except Exception:
-                col.probe('view_refused')
-        # WalletKey.public() on address keys
-        for r in rows[-2:]:
-            try:
-                v = WalletKey(r.id, w.session).public()
-            except Exception:
-                col.probe('view_refused')
+                v = WalletKey(rid, w.session).public()
+            except Exception as e:
+                refused(col, 'view_refused', '%s WalletKey.public()' % case['wtype'], e)
                 continue
             col.case(cls + '/WalletKey.public()', nontrivial=ident + ('walletkey_public',), sample=dict(case, view='WalletKey.public()'))
             check_public_view(col, taint, case, v, 'WalletKey.public()')
-        # ---- watch-only wallet from the exported public key(s)
+            if getattr(v, '_hdkey_object', None) is not None and not isinstance(v._hdkey_object, list):
+                check_public_view(col, taint, case, v._hdkey_object, 'WalletKey.public()._hdkey_object')
+        # ---- 3. exports that strip ORM instance state in place (utxos, transactions(as_dict), networks(as_dict)) go last
+        for label, fn in (('networks(as_dict)', lambda: w.networks(as_dict=True)),
+                          ('utxos()', lambda: w.utxos()),
+                          ('transactions(as_dict)', lambda: w.transactions(as_dict=True)),
+                          ('transactions_export()', lambda: w.transactions_export()),
+                          ('transactions()', lambda: [render_forms(col, t, ('repr', 'str', 'as_dict', 'as_json', 'info')) for t in w.transactions()[:3]])):
+            try:
+                val = fn()
+            except Exception as e:
+                refused(col, 'wallet_export_refused', '%s Wallet.%s' % (case['wtype'], label), e)
+                continue
+            col.probe('wallet_export_scan')
+            h = _tag(scan_graph(taint, val)[0], label)
+            if h:
+                report(col, None, 'Wallet.%s' % label, case, 'private Wallet', label, h)
+        # ---- 4. watch-only wallet from the exported public key(s)
         if watch_keys:
             try:
                 if isinstance(watch_keys, list):
@@ -1054,7 +1157,7 @@ def run_wallet_case(case, col):
                     w2 = Wallet.create(name + 'watch', keys=watch_keys, network=case['network'], witness_type=case['witness_type'],
                                        db_uri=_db_uri(db_path))
             except Exception as e:
-                col.probe('watch_only_refused')
+                refused(col, 'watch_only_refused', '%s watch-only create' % case['wtype'], e)
                 w2 = None
             if w2 is not None:
                 col.case(cls + '/watch-only', nontrivial=ident + ('watch',), sample=dict(case, view='watch-only wallet'))
@@ -1073,8 +1176,8 @@ def run_wallet_case(case, col):
                             report(col, None, 'watch-only DbKey row', case, 'watch-only Wallet', 'row', h)
                     if w2.main_key:
                         check_public_view(col, taint, case, w2.main_key, 'watch-only Wallet.main_key')
-                except Exception:
-                    col.probe('view_refused')
+                except Exception as e:
+                    refused(col, 'view_refused', '%s watch-only rows' % case['wtype'], e)
                 _close_wallet(w2)
     finally:
         _close_wallet(w)
@@ -1132,7 +1235,7 @@ def run_atrest_case(case, col):
         s, g = _wallet_secrets(wc)
         seeds += s
         singles += g
-        ctx = {'import_secret': int(wc['import_secret'], 16) if wc.get('import_secret') else None, 'store': True}
+        ctx = {'import_secret': int(wc['import_secret'], 16) if wc.get('import_secret') else None, 'store': True, 'col': col}
         try:
             w = make_wallet(wc, db_path, 'c16r%d_%d' % (n, i))
         except Exception as e:
@@ -1225,7 +1328,10 @@ def _no_network():
 
 
 def _prepare(col):
+    import sys
     _no_network()
+    # half-built copies of WalletKey/Wallet (copy refused on the Session) complain in __del__; keep workers silent
+    sys.unraisablehook = lambda *a, **kw: None
     try:
         ec.selfcheck()
         codec.selfcheck()
